@@ -105,7 +105,12 @@ def fresh(t: str, name: str, st: State, eng=None):
         inner = t[5:-1]
         has = z3.Function(nm + "#has", z3.IntSort(), z3.BoolSort())
         get = z3.Function(nm + "#get", z3.IntSort(), _zsort(inner))
-        return st.alloc(DictV(lambda k: has(_sid(k)), lambda k: _wrap(get(_sid(k)), inner), inner), "dict")
+        size = z3.Int(nm + "#size")
+        st.fact(size >= 0)
+        return st.alloc(DictV(lambda k: has(_sid(k)), lambda k: _wrap(get(_sid(k)), inner), inner, size), "dict")
+    if t == "emptydict":
+        from .values import CDict
+        return st.alloc(CDict({}), "cdict")
     if t == "rng":
         o = st.new_obj("rng")
         st.heap[o.oid]["state"] = z3.Int(nm + "#rngstate")
@@ -212,7 +217,10 @@ def fresh_like(v, name, st: State):
         if isinstance(cell, DictV):
             has = z3.Function(nm + "#has", z3.IntSort(), z3.BoolSort())
             get = z3.Function(nm + "#get", z3.IntSort(), _zsort(cell.vtype))
-            return st.alloc(DictV(lambda k: has(_sid(k)), lambda k: _wrap(get(_sid(k)), cell.vtype), cell.vtype), "dict")
+            size = z3.Int(nm + "#size")
+            st.fact(size >= 0)
+            return st.alloc(DictV(lambda k: has(_sid(k)), lambda k: _wrap(get(_sid(k)), cell.vtype), cell.vtype, size),
+                            "dict")
         raise Unsupported("havoc of concrete dict")
     if isinstance(v, VTuple):
         return VTuple([fresh_like(x, name, st) for x in v.items])
